@@ -855,9 +855,9 @@ func (s *BitReversedPositive) SQL() string {
 func (c *AlterSequence) SQL() string {
 	return "ALTER SEQUENCE " + c.Name.SQL() +
 		sqlOpt(" SET ", c.Options, "") +
-		sqlOpt(" ", c.RestartCounterWith, "") +
 		sqlOpt(" ", c.SkipRange, "") +
-		sqlOpt(" ", c.NoSkipRange, "")
+		sqlOpt(" ", c.NoSkipRange, "") +
+		sqlOpt(" ", c.RestartCounterWith, "")
 }
 
 func (c *CreateView) SQL() string {
